@@ -50,4 +50,11 @@ def WF (fu : Nat) (orig cur : Bk) : Prop := origOk fu orig = true ∧ curOk orig
 
 instance (fu : Nat) (orig cur : Bk) : Decidable (WF fu orig cur) := by unfold WF; exact inferInstance
 
+/-- inline buckets carry page id 0 on their leaf (`page.id` of an inline page is 0): a hypothesis of
+    the bucket-level write theorem (`C01BktWrite`), evaluated by the `bkt` engine on every real
+    start-of-transaction bucket tree -/
+def inlZeroOk : Nat → Bk → Bool
+  | 0, _ => true
+  | f+1, b => (b.root != 0 || b.tree.hd.pgid == 0) && b.opened.all (fun p => inlZeroOk f p.2)
+
 end Bolt.Bkt
